@@ -68,6 +68,15 @@ fn key_pool(rng: &mut Rng) -> String {
 	// boosted: U+E000..U+FFFF versus supplementary planes, prefixes, empty
 	let c = |x: u32| char::from_u32(x).unwrap();
 	let mut s = String::new();
+	if rng.chance(1, 10) {
+		// a long common prefix (15..18 characters, some of them two UTF-16 units wide) before the deciding character
+		let mut s: String = "abcdefghijklmnopqrstuvwxyz"[..15 + rng.below(4)].to_string();
+		if rng.chance(1, 2) {
+			s.insert(3, '\u{1f600}');
+		}
+		s.push(c([0xe000, 0xffff, 0x10000, 0x10ffff, 0x61][rng.below(5)]));
+		return s;
+	}
 	if rng.chance(1, 6) {
 		// supplementary characters sharing a high surrogate (or not), followed by a tail that orders the other way
 		s.push(c([0x1f600, 0x1f601, 0x10000, 0x10001, 0x10ffff, 0xffff, 0xe000][rng.below(7)]));
